@@ -253,14 +253,24 @@ class Builder:
             for _, kk in ins[1:]:
                 row.append(["-"] if hp == "U" or s.bool(0.6) else (["ge", s.choice(["0", "2"])] if kk == NUM else ["eq", s.choice(["a", "ab"])]))
             rules.append({"in": row, "out": [g.expr(ok, depth, env)]})
-        if hp == "F" or (hp == "C" and s.bool(0.5)):
+        # a default output entry (single-output, single-hit tables): an expression over the same environment as the output entries - it
+        # names required inputs / decisions / parameters / earlier context entries - that applies when no rule matches; the rules then
+        # leave part of the input space uncovered (the last part is dropped, no catch-all rule)
+        default = None
+        if hp != "C" and s.bool(0.4):
+            default = g.expr(ok, min(depth, 1), env)
+            if len(rules) > 1:
+                rules.pop()
+        if default is None and (hp == "F" or (hp == "C" and s.bool(0.5))):
             rules.append({"in": [["-"] for _ in ins], "out": [g.expr(ok, depth, env)]})
         outs = [None]
-        if hp != "C" and s.bool(0.25):
+        if hp != "C" and default is None and s.bool(0.25):
             outs = list(OUT_NAMES)
             for r in rules:
                 r["out"].append(g.expr(NUM, 0, env))
         T = {"hp": hp, "inputs": [{"expr": e, "kind": kk[0]} for e, kk in ins], "outputs": outs, "rules": rules}
+        if default is not None:
+            T["defaults"] = [default]
         if len(outs) > 1:
             k = ("ctx", tuple(sorted([(OUT_NAMES[0], ok), (OUT_NAMES[1], NUM)])))
         else:
@@ -631,7 +641,8 @@ HP_XML = {"U": "UNIQUE", "F": "FIRST", "C": "COLLECT"}
 
 def table_xml(T):
     d = {"hit_policy": HP_XML[T["hp"]], "inputs": [{"expr": F.r(c["expr"])} for c in T["inputs"]],
-         "outputs": [{"name": n} for n in T["outputs"]],
+         "outputs": [{"name": n, "default": (F.r(T["defaults"][i]) if T.get("defaults") and T["defaults"][i] is not None else None)}
+                     for i, n in enumerate(T["outputs"])],
          "rules": [{"in": [test_text(t) for t in r["in"]], "out": [F.r(e) for e in r["out"]]} for r in T["rules"]]}
     return X.decision_table(d)
 
